@@ -17,6 +17,12 @@ ObjectSetPhase object of a delegated phase is created with ALL objects of the ph
 (`sliced_eq_inline`, `sliced_delegated_phase_gets_all_objects`).  The line driver's hash is injective up to the REAL
 FNV-32 collisions a scenario declares (`drv_hash_recognised`, `drv_declared_collision`, `drv_run_monitor_ok`).
 
+Objects are equal only if equal in EVERY field of the ObjectSetObject (`Obj.fp`: fingerprint of collisionProtection,
+conditionMappings and payload; the harnesses deep-compare what the real code hands back with the originals), and an
+ObjectSet pins its slices as long as it EXISTS, whatever its `.spec.lifecycleState` (active / paused / archived) or
+deletionTimestamp (`gc_keeps_referenced`, `gc_keeps_archived_referenced`, `gc_ignores_lifecycle`; histories include
+lifecycle changes and deletions held back by the finalizer: `history_keeps_everything_loadable`).
+
 Not covered here (built separately on the shared in-memory API store): the differential of a sliced vs. inline
 ObjectSet through the REAL phase reconciler (`sliced_rollout_eq_inline` of DESIGN.md is established here only at
 the per-phase seam, `sliced_eq_inline`).
@@ -157,7 +163,7 @@ theorem chunk_within_limit_partial (limit : Nat) (objs : List Obj) (cs : Chunks)
         · exact hi.curWithin
 
 /-- A chunk may exceed the limit when a single object does (limit 10, sizes 3, 50, 3). -/
-example : binpackChunk 10 [⟨0, some 3⟩, ⟨1, some 50⟩, ⟨2, some 3⟩] = some [[⟨0, some 3⟩], [⟨1, some 50⟩], [⟨2, some 3⟩]] := by
+example : binpackChunk 10 [⟨0, some 3, 0⟩, ⟨1, some 50, 0⟩, ⟨2, some 3, 0⟩] = some [[⟨0, some 3, 0⟩], [⟨1, some 50, 0⟩], [⟨2, some 3, 0⟩]] := by
   decide
 
 /-- **each_concat**: EachObject puts every object into its own chunk, in order. -/
@@ -393,14 +399,35 @@ theorem load_monitor_ok (st : Store Name) (t : Template Name) :
 /-! ## Garbage collection -/
 
 /-- **gc_keeps_referenced**: a slice deleted by `sliceGarbageCollection` is referenced neither by the deployment
-template nor by any listed ObjectSet (and it carried the owner label, i.e. was in GC scope). -/
-theorem gc_keeps_referenced (st : Store Name) (tmpl : Template Name) (objectSets : List (Template Name))
+template nor by ANY listed ObjectSet — whatever its `.spec.lifecycleState` (active, paused, archived) and whether
+or not its deletionTimestamp is set: `os` ranges over all of `objectSets`, nothing is assumed about `os.life` /
+`os.deleting` — (and it carried the owner label, i.e. was in GC scope). -/
+theorem gc_keeps_referenced (st : Store Name) (tmpl : Template Name) (objectSets : List (OSet Name))
     (n : Name) (h : n ∈ gcDeletes st tmpl objectSets) :
-    n ∉ refs tmpl ∧ (∀ os ∈ objectSets, n ∉ refs os) ∧ ∃ s, getSlice st n = some s ∧ s.lbl = true := by
+    n ∉ refs tmpl ∧ (∀ os ∈ objectSets, n ∉ refs os.phases) ∧ ∃ s, getSlice st n = some s ∧ s.lbl = true := by
   obtain ⟨_, h2, h3, h4⟩ := mem_gcDeletes h
   refine ⟨h3, ?_, h2⟩
   intro os hos hn
   exact h4 (List.mem_flatMap.mpr ⟨os, hos, hn⟩)
+
+/-- **gc_keeps_archived_referenced** (the clause seeded defect C14-3 breaks, spelled out): a revision that is
+Archived in spec — or paused, or being deleted — but still EXISTS keeps every slice it references: the ObjectSet
+controller loads them on every teardown attempt until the teardown is done. -/
+theorem gc_keeps_archived_referenced (st : Store Name) (tmpl : Template Name) (objectSets : List (OSet Name))
+    (ph : Template Name) (l : Life) (dl : Bool)
+    (hos : ({ phases := ph, life := l, deleting := dl } : OSet Name) ∈ objectSets) (n : Name) (hn : n ∈ refs ph) :
+    n ∉ gcDeletes st tmpl objectSets :=
+  fun h => (gc_keeps_referenced st tmpl objectSets n h).2.1 _ hos hn
+
+/-- `sliceGarbageCollection` does not look at lifecycle / deletion state at all: changing them changes nothing. -/
+theorem gc_ignores_lifecycle (st : Store Name) (tmpl : Template Name) (objectSets : List (OSet Name))
+    (f : OSet Name → OSet Name) (hf : ∀ os, (f os).phases = os.phases) :
+    gcDeletes st tmpl (objectSets.map f) = gcDeletes st tmpl objectSets := by
+  have : (objectSets.map f).flatMap osRefs = objectSets.flatMap osRefs := by
+    induction objectSets with
+    | nil => rfl
+    | cons a l ih => simp only [List.map_cons, List.flatMap_cons, ih, osRefs, hf]
+  simp only [gcDeletes, this]
 
 /-- **reconcile_keeps_objectsets_loadable**: a `Reconcile` (successful or failed) never invalidates an existing
 ObjectSet: whatever an ObjectSet decoded to before, it decodes to the same objects afterwards — its slices
@@ -408,8 +435,8 @@ are neither deleted by GC nor modified by the collision handling. -/
 theorem reconcile_keeps_objectsets_loadable (limit : Nat) (strat : Strategy) (hash : List Obj → Nat → Name)
     (w w' : World Name) (desired : List (List Obj)) (ok : Bool) (del : List Name)
     (h : reconcile limit strat hash w desired = some (w', ok, del))
-    (os : Template Name) (hos : os ∈ w.objectSets) (d : List (List Obj))
-    (hd : decode w.slices os = some d) : decode w'.slices os = some d := by
+    (os : OSet Name) (hos : os ∈ w.objectSets) (d : List (List Obj))
+    (hd : decode w.slices os.phases = some d) : decode w'.slices os.phases = some d := by
   obtain ⟨st1, r, hc, hcase⟩ := reconcile_cases h
   obtain ⟨ext, _, _⟩ := chunkPhases_spec (fun objs cs => chunk_concat) hc
   have h1 := decode_ext ext hd
@@ -425,9 +452,9 @@ theorem reconcile_keeps_objectsets_loadable (limit : Nat) (strat : Strategy) (ha
         exact (gc_keeps_referenced st1 tmpl w.objectSets n hnd).2.1 os hos hn
       simp [this]
 
-/-- Every ObjectSet and the deployment template can be loaded. -/
+/-- Every existing ObjectSet — in whatever lifecycle / deletion state — and the deployment template can be loaded. -/
 def Loadable (w : World Name) : Prop :=
-  (∀ os ∈ w.objectSets, ∃ d, decode w.slices os = some d) ∧
+  (∀ os ∈ w.objectSets, ∃ d, decode w.slices os.phases = some d) ∧
   (∀ t, w.deploy = some t → ∃ d, decode w.slices t = some d)
 
 /-- One step of a history (a stuck collision loop leaves the world as it is). -/
@@ -479,15 +506,29 @@ theorem hstep_loadable (limit : Nat) (strat : Strategy) (hash : List Obj → Nat
       simp only [List.mem_append, List.mem_singleton] at hos
       rcases hos with hos | rfl
       · exact hw.1 os hos
-      · exact hw.2 os hd
+      · exact hw.2 t hd
   | delos i =>
     simp only [hstep, modelStep, delos]
     exact ⟨fun os hos => hw.1 os (List.mem_of_mem_eraseIdx hos), hw.2⟩
+  | life i l =>
+    simp only [hstep, modelStep, setLife]
+    refine ⟨fun os hos => ?_, hw.2⟩
+    rcases mem_modifyAt _ _ _ _ hos with h | ⟨y, hy, rfl⟩
+    · exact hw.1 os h
+    · exact hw.1 y hy
+  | markdel i =>
+    simp only [hstep, modelStep, markDeleting]
+    refine ⟨fun os hos => ?_, hw.2⟩
+    rcases mem_modifyAt _ _ _ _ hos with h | ⟨y, hy, rfl⟩
+    · exact hw.1 os h
+    · exact hw.1 y hy
 
 /-- **history_keeps_everything_loadable**: for all histories of package updates (each with its own desired
-phases, adding and dropping slices), ObjectSet creations and ObjectSet deletions, with any strategy, limit, hash
-and initial slices: as long as things start loadable, every existing ObjectSet and the deployment template can
-always be loaded — slice GC never pulls a slice out from under them. -/
+phases, adding and dropping slices), ObjectSet creations, lifecycle changes (archival, pausing, back to active),
+deletions that are held back by the finalizer and ObjectSets finally going away, with any strategy, limit, hash
+and initial slices: as long as things start loadable, every EXISTING ObjectSet — archived-in-spec and
+being-deleted ones included — and the deployment template can always be loaded — slice GC never pulls a slice
+out from under them. -/
 theorem history_keeps_everything_loadable (limit : Nat) (strat : Strategy) (hash : List Obj → Nat → Name)
     (ops : List Op) (w : World Name) (hw : Loadable w) :
     Loadable (ops.foldl (hstep limit strat hash) w) := by
@@ -542,6 +583,12 @@ theorem run_monitor_ok (limit : Nat) (strat : Strategy) (hash : List Obj → Nat
       exact ih _
     | delos i =>
       simp only [modelRun, modelStep, checkRun, specStep_delos, Bool.true_and]
+      exact ih _
+    | life i l =>
+      simp only [modelRun, modelStep, checkRun, specStep_life, Bool.true_and]
+      exact ih _
+    | markdel i =>
+      simp only [modelRun, modelStep, checkRun, specStep_markdel, Bool.true_and]
       exact ih _
 
 /-! ## Sliced ObjectSets behave like inline ones (at the per-phase seam) -/
@@ -694,22 +741,22 @@ open Pko.Drv.C14
 /-- The hash the line driver instantiates the model with — symbolic names, injective up to the real FNV-32
 collisions a scenario declares — is recognised by the monitor's `isHashOf`: the premise of `deploy_monitor_ok` /
 `run_monitor_ok` holds for every collision table. -/
-theorem drv_hash_recognised (coll : List JColl) (X : List Obj) (k : Nat) :
+theorem drv_hash_recognised (coll : List KColl) (X : List Obj) (k : Nat) :
     isSymHashOf coll (symHash coll X k) X = true := by
   simp [isSymHashOf, symHash]
 
 /-- **drv_run_monitor_ok**: `run_monitor_ok` for the hash of the driver: whatever real collisions a scenario
 declares, the model's trace passes the monitor (so a monitor failure on an implementation trace is never an
 artefact of a declared collision). -/
-theorem drv_run_monitor_ok (coll : List JColl) (limit : Nat) (strat : Strategy) (ops : List Op) (w : World SName) :
+theorem drv_run_monitor_ok (coll : List KColl) (limit : Nat) (strat : Strategy) (ops : List Op) (w : World SName) :
     checkRun (isSymHashOf coll) limit strat (stateOf w) ops (modelRun limit strat (symHash coll) w ops) = true :=
   run_monitor_ok limit strat (symHash coll) (isSymHashOf coll) (drv_hash_recognised coll) ops w
 
 /-- A declared collision IS a collision of the driver's hash, at every collision count (the representative not
 being an alias itself, as `Dep.valid` demands). -/
-theorem drv_declared_collision (coll : List JColl) (e : JColl) (A B : List Obj) (c : Nat)
-    (he : coll.find? (fun x => x.b == B.map (·.id)) = some e) (ha : e.a = A.map (·.id))
-    (hrep : coll.find? (fun x => x.b == A.map (·.id)) = none) :
+theorem drv_declared_collision (coll : List KColl) (e : KColl) (A B : List Obj) (c : Nat)
+    (he : coll.find? (fun x => x.b == keyOf B) = some e) (ha : e.a = keyOf A)
+    (hrep : coll.find? (fun x => x.b == keyOf A) = none) :
     symHash coll A c = symHash coll B c := by
   simp [symHash, canonKey, he, hrep, ha]
 
@@ -718,14 +765,14 @@ declared to collide.  Reconciling the phases [[o2],[o4]] with EachObject, the mo
 does not reuse the clashing name for the different content: the second slice gets collision count 1 and the
 template decodes to the desired phases. -/
 example :
-    let coll : List JColl := [{ a := [2], b := [4], sa := [6394], sb := [17021] }]
-    let o2 : Obj := ⟨2, some 6394⟩
-    let o4 : Obj := ⟨4, some 17021⟩
+    let coll : List KColl := [{ a := [(2, 0)], b := [(4, 0)] }]
+    let o2 : Obj := ⟨2, some 6394, 0⟩
+    let o4 : Obj := ⟨4, some 17021, 0⟩
     symHash coll [o2] 0 = symHash coll [o4] 0 ∧
     (reconcile 1048576 .each (symHash coll) ⟨none, [], []⟩ [[o2], [o4]]).map
         (fun r => (r.2.1, r.1.deploy, decode r.1.slices (r.1.deploy.getD []))) =
       some (true,
-        some [{ objects := [], slices := [⟨[2], 0⟩] }, { objects := [], slices := [⟨[2], 1⟩] }],
+        some [{ objects := [], slices := [⟨[(2, 0)], 0⟩] }, { objects := [], slices := [⟨[(2, 0)], 1⟩] }],
         some [[o2], [o4]]) := by
   decide
 
@@ -738,23 +785,23 @@ ObjectSet with one phase whose single object lives in one slice — `Teardown` i
 reports done, the ObjectSet becomes Archived and drops its finalizer although nothing was torn down; the inline
 twin tears the object down.  So "tears down exactly like the same ObjectSet with the objects inline" fails. -/
 theorem teardown_without_load_counterexample :
-    let st : Store Nat := [(7, { objects := [⟨1, some 1⟩], ctl := true, lbl := true, owned := true })]
+    let st : Store Nat := [(7, { objects := [⟨1, some 1, 0⟩], ctl := true, lbl := true, owned := true })]
     let t : Template Nat := [{ objects := [], slices := [7] }]
-    decode st t = some [[⟨1, some 1⟩]] ∧
+    decode st t = some [[⟨1, some 1, 0⟩]] ∧
     (controllerPreFix .archived st t [] none).calls = [{ teardown := true, phase := 0, objects := [] }] ∧
     (controllerPreFix .archived st t [] none).archived = some true ∧
     (controllerPreFix .archived st t [] none).finalizerRemoved = true ∧
-    (controller .archived ([] : Store Nat) (inlineTwin [[⟨1, some 1⟩]]) [] none).calls =
-      [{ teardown := true, phase := 0, objects := [⟨1, some 1⟩] }] ∧
+    (controller .archived ([] : Store Nat) (inlineTwin [[⟨1, some 1, 0⟩]]) [] none).calls =
+      [{ teardown := true, phase := 0, objects := [⟨1, some 1, 0⟩] }] ∧
     ctlOk st t (controllerPreFix .archived st t [] none)
-      (controller .archived ([] : Store Nat) (inlineTwin [[⟨1, some 1⟩]]) [] none) = false := by
+      (controller .archived ([] : Store Nat) (inlineTwin [[⟨1, some 1, 0⟩]]) [] none) = false := by
   decide
 
 /-- The fixed control flow on the same witness: the object is handed to teardown. -/
 example :
-    let st : Store Nat := [(7, { objects := [⟨1, some 1⟩], ctl := true, lbl := true, owned := true })]
+    let st : Store Nat := [(7, { objects := [⟨1, some 1, 0⟩], ctl := true, lbl := true, owned := true })]
     let t : Template Nat := [{ objects := [], slices := [7] }]
-    (controller .archived st t [] none).calls = [{ teardown := true, phase := 0, objects := [⟨1, some 1⟩] }] := by
+    (controller .archived st t [] none).calls = [{ teardown := true, phase := 0, objects := [⟨1, some 1, 0⟩] }] := by
   decide
 
 /-- Non-vacuity (delegated phase in slices, the situation of seeded defect C14-1): a local phase with one slice
@@ -764,7 +811,7 @@ worker gets phase 0 with its slice loaded, the ObjectSetPhase of phase 1 is crea
 ObjectSet is Available and in transition, like the twin. -/
 example :
     let sl (objs : List Obj) : Slice := { objects := objs, ctl := true, lbl := true, owned := false }
-    let o (i : Nat) : Obj := ⟨i, some 1⟩
+    let o (i : Nat) : Obj := ⟨i, some 1, 0⟩
     let st : Store Nat := [(10, sl [o 1]), (11, sl [o 2, o 3]), (12, sl [o 4])]
     let t : Template Nat := [{ objects := [o 0], slices := [10] }, { objects := [], slices := [11, 12], cls := true }]
     let twin : Template Nat := inlineTwinOf t [[o 0, o 1], [o 2, o 3, o 4]]
@@ -782,12 +829,12 @@ example :
 /-- Non-vacuity (chunkers): limit 10, sizes 4,4,4,20,1 → next-fit packs [a,b] [c] [d] [e]; the concatenation is
 the input; the oversized object sits alone. -/
 example :
-    binpackChunk 10 [⟨0, some 4⟩, ⟨1, some 4⟩, ⟨2, some 4⟩, ⟨3, some 20⟩, ⟨4, some 1⟩] =
-      some [[⟨0, some 4⟩, ⟨1, some 4⟩], [⟨2, some 4⟩], [⟨3, some 20⟩], [⟨4, some 1⟩]] := by
+    binpackChunk 10 [⟨0, some 4, 0⟩, ⟨1, some 4, 0⟩, ⟨2, some 4, 0⟩, ⟨3, some 20, 0⟩, ⟨4, some 1, 0⟩] =
+      some [[⟨0, some 4, 0⟩, ⟨1, some 4, 0⟩], [⟨2, some 4, 0⟩], [⟨3, some 20, 0⟩], [⟨4, some 1, 0⟩]] := by
   decide
 
 /-- Non-vacuity (bypass): the same objects with limit 40 are not chunked at all. -/
-example : binpackChunk 40 [⟨0, some 4⟩, ⟨1, some 4⟩, ⟨2, some 4⟩, ⟨3, some 20⟩, ⟨4, some 1⟩] = some [] := by
+example : binpackChunk 40 [⟨0, some 4, 0⟩, ⟨1, some 4, 0⟩, ⟨2, some 4, 0⟩, ⟨3, some 20, 0⟩, ⟨4, some 1, 0⟩] = some [] := by
   decide
 
 /-- Non-vacuity (collision path, GC, loader): the hash `fun _ c => c` makes EVERY content collide.  With name 0
@@ -796,9 +843,9 @@ them alive across a reconcile that drops them from the template, and they are co
 gone; the loader gives back the original phase. -/
 example :
     let hash : List Obj → Nat → Nat := fun _ c => c
-    let a : Obj := ⟨0, some 1⟩
-    let b : Obj := ⟨1, some 1⟩
-    let pre : Slice := { objects := [⟨9, some 1⟩], ctl := true, lbl := false, owned := false }
+    let a : Obj := ⟨0, some 1, 0⟩
+    let b : Obj := ⟨1, some 1, 0⟩
+    let pre : Slice := { objects := [⟨9, some 1, 0⟩], ctl := true, lbl := false, owned := false }
     let w0 : World Nat := { deploy := some [], objectSets := [], slices := [(0, pre)] }
     let w1 := hstep 0 .each hash w0 (.deploy [[a, b]])
     let w2 := hstep 0 .each hash (hstep 0 .each hash w1 .snap) (.deploy [[]])
@@ -806,6 +853,39 @@ example :
     w1.deploy = some [{ objects := [], slices := [1, 2] }] ∧
     (loadPhases w1.slices [] [{ objects := [], slices := [1, 2] }]).2.2 = ([[a, b]], true) ∧
     names w2.slices = [0, 1, 2] ∧ names w3.slices = [0] := by
+  decide
+
+/-- Non-vacuity (archived-in-spec revision, the situation of seeded defect C14-3): package v1 → v2 → v3, one slice
+each; revision 1 is Archived in spec (and revision 2 paused and being deleted) but both still EXIST when v3
+arrives: their slices survive the GC of the v3 reconcile; only once revision 1 is gone is its slice collected.
+The specification's `gcSafe` rejects the observation in which the slice of the archived revision is deleted. -/
+example :
+    let hash : List Obj → Nat → Nat := fun X _ => (X.map (·.id)).sum
+    let o (i : Nat) : Obj := ⟨i, some 1, 0⟩
+    let st := hstep 0 .each hash
+    let w0 : World Nat := { deploy := none, objectSets := [], slices := [] }
+    let w2 := st (st (st (st w0 (.deploy [[o 1]])) .snap) (.deploy [[o 2]])) .snap
+    let w3 := st (st (st w2 (.life 0 .archived)) (.life 1 .paused)) (.markdel 1)
+    let w4 := st w3 (.deploy [[o 3]])
+    let w5 := st (st w4 (.delos 0)) (.deploy [[o 3]])
+    w3.objectSets = [{ phases := [{ objects := [], slices := [1] }], life := .archived },
+                     { phases := [{ objects := [], slices := [2] }], life := .paused, deleting := true }] ∧
+    names w4.slices = [1, 2, 3] ∧ names w5.slices = [2, 3] ∧
+    gcSafe (stateOf w3) { ok := true, tmpl := w4.deploy, deleted := [1], store := erase w4.slices [1] } = false ∧
+    gcSafe (stateOf w3) { ok := true, tmpl := w4.deploy, deleted := [], store := w4.slices } = true := by
+  decide
+
+/-- Non-vacuity (every field of the ObjectSetObject counts, the situation of seeded defect C14-4): an object with
+condition mappings (fingerprint 20) that comes back from the slices with the mappings dropped (fingerprint 0) is
+NOT the original: `chunkOk` and `lossless` reject it, and accept the faithful copy. -/
+example :
+    let o : Obj := ⟨0, some 1, 20⟩
+    let o' : Obj := ⟨0, some 1, 0⟩
+    let sl (x : Obj) : Slice := { objects := [x], ctl := true, lbl := true, owned := false }
+    let t : Template Nat := [{ objects := [], slices := [7] }]
+    chunkOk 10 .each [o] (.chunks [[o']]) = false ∧ chunkOk 10 .each [o] (.chunks [[o]]) = true ∧
+    lossless [[o]] { ok := true, tmpl := some t, deleted := [], store := [(7, sl o')] } = false ∧
+    lossless [[o]] { ok := true, tmpl := some t, deleted := [], store := [(7, sl o)] } = true := by
   decide
 
 end Pko.Props.C14
